@@ -365,7 +365,27 @@ C06 = Spec('C06',
     explanation='chk_C06 compares the per-byte attribution of the composite stream with (Concat) the concatenation of the children\'s own attributions and contents, (Replace) a reference written over byte positions: cuts, pieces whose column advances only where the recorded original content matches, emission points of replacement content',
     checker_name='ChkComp.chk_C06', model_name='Stream/Concat.v, Stream/Replace.v')
 
-REGISTRY = {'C06': C06, 'C04': C04, 'C12': C12, 'C16': C16, 'C01': C01, 'C05': C05, 'C10': C10, 'C13': C13, 'C14': C14, 'C20': C20, 'C02': C02, 'C03': C03, 'C07': C07, 'C08': C08, 'C11': C11}
+def gen_c09(rng, tier):
+    n = 2500 if tier == 'quick' else 100000
+    out = []
+    for i in range(n):
+        g = gen_tree.Gen(rng, gen_tree.Cfg(ascii=True, names=0.6, root=0.2))
+        value = g.text(14)
+        t = g.combined(value, 'gen%d.js' % rng.randrange(0, 3))
+        feats = gen_tree.kinds_of(t, set())
+        if len(value) >= 2 and t[3]['segs']:
+            feats.add('nontrivial')
+        if t[4] is not None: feats.add('original_source_given')
+        if t[6]: feats.add('remove_original_source')
+        if len(t[3]['sources']) > 1: feats.add('several_outer_sources')
+        out.append(Case('tree', {'t': t, 'warm': []}, feats))
+    return out
+
+C09 = tree_spec('C09', ['src', 'm1', 'm0'] + STREAM_KEYS, gen_c09, 'ChkCombined.chk_C09',
+    'chk_C09 is a relational reference over the two decoded maps: pass-through of other sources, resolution through the inner map (column interval, admissible names), fallback to the inner source or removal, matching contents; combined streaming is modelled in Stream/Combined.v and compared event by event')
+C09.rule = 'SourceMapSource with inner map: ASCII generated text, consistent outer map over 1-3 sources one of which is the inner source (segments into it point inside the original text), consistent inner map over the original text, original_source given or taken from the outer sourcesContent (or absent), remove_original_source both, names; both column settings'
+
+REGISTRY = {'C09': C09, 'C06': C06, 'C04': C04, 'C12': C12, 'C16': C16, 'C01': C01, 'C05': C05, 'C10': C10, 'C13': C13, 'C14': C14, 'C20': C20, 'C02': C02, 'C03': C03, 'C07': C07, 'C08': C08, 'C11': C11}
 
 def get(pid):
     return REGISTRY[pid]
